@@ -192,6 +192,8 @@ def revive(j):
     if isinstance(j, dict):
         if set(j.keys()) == {"%"}:
             return Obj([(k, revive(v)) for k, v in j["%"]])
+        if set(j.keys()) == {"#num"}:
+            return Num(j["#num"])       # a number with its spelling kept (1e1 is not 10 for encoding/json's integer decoding)
         return {k: revive(v) for k, v in j.items()}
     if isinstance(j, list):
         return [revive(x) for x in j]
